@@ -34,6 +34,9 @@ QUICK = [
     _k('scaled_fixed_storage_norm_below_one', mode='fixed', base='storage', T=2, norm=0.5),
     _k('scaled_fixed_contract_norm_below_one', mode='fixed', base='contract', T=2, norm=0.25),
     _k('scaled_free_storage_norm_below_one', mode='free', base='storage', T=2, norm=0.5),
+    _k('scaled_fixed_storage_discounted', mode='fixed', base='storage', T=3, freq='d', unit='h', wacc=True),
+    _k('scaled_free_contract_discounted', mode='free', base='contract', T=2, freq='d', unit='d', wacc=True),
+    _k('scaled_cost_sample_own_window', mode='costs', shape='scaled', kw=dict(T=4, base='transport', win=(1, 3))),
     _k('scaled_fixed_plant', mode='fixed', base='plant', T=3),
     _k('scaled_fixed_storage_no_simult', mode='fixed', base='storage_no_simult', T=2),
     _k('structured', mode='struct', T=2),
@@ -114,7 +117,7 @@ def mk_base(D, base, T, tg, nA, nB, f, concrete, win, name):
     raise KeyError(base)
 
 
-def build_scaled(D, mode, base, T, win=None, unit='h', freq='h', sigma=None, wrap_win='same', norm=2.0):
+def build_scaled(D, mode, base, T, win=None, unit='h', freq='h', sigma=None, wrap_win='same', norm=2.0, wacc=False):
     """returns (pf_scaled, pf_base_scaled_quantities, tg, prices, factor term, fix cost rate, scale value/sigma)"""
     eao = lift.import_eao()
     tg = shapes.grid(T, freq, unit)
@@ -140,11 +143,16 @@ def build_scaled(D, mode, base, T, win=None, unit='h', freq='h', sigma=None, wra
     b1 = mk_base(D, base, T, tg, nA, nB, None, concrete, win, 'base')
     ww = win if wrap_win == 'same' else wrap_win
     s_, e_ = shapes.window(tg, ww) if ww is not None else (None, None)
-    sa = eao.assets.ScaledAsset(name='sc', base_asset=b1, min_scale=mn, max_scale=mx, norm_scale=norm, fix_costs=fixc, start=s_, end=e_)
+    sa = eao.assets.ScaledAsset(name='sc', base_asset=b1, min_scale=mn, max_scale=mx, norm_scale=norm, fix_costs=fixc, start=s_, end=e_,
+                                **(dict(wacc=D('wacc', lo=0)) if wacc else {}))
+    if wacc:
+        b1.wacc = sa.wacc      # the cash flows of the base asset are discounted; the fixed costs are s x rate x active duration (as the property states)
     pf_s = eao.portfolio.Portfolio([sa] + others())
     pf_b = None
     if f is not None:
         b2 = mk_base(D, base, T, tg, nA, nB, f, concrete, win, 'sc')
+        if wacc:
+            b2.wacc = sa.wacc
         pf_b = eao.portfolio.Portfolio([b2] + others())
     return pf_s, pf_b, tg, prices, fixc, (mn, mx)
 
@@ -159,17 +167,21 @@ def active_duration(tg, win):
 
 def run_case(case_id, tier, seed, mode, **kw):
     rec = lpsem.Rec(PROP, case_id)
+    if mode == 'costs':
+        # valuation through cost samples (robust target, SLP): the cost sample of the scaled asset is its cost vector (C17 machinery)
+        from . import c17
+        return c17.run_costs(rec, seed, kw['shape'], kw['kw'])
     if mode == 'struct':
         return run_struct(rec, seed, **kw)
     return run_scaled(rec, seed, mode, **kw)
 
 
-def run_scaled(rec, seed, mode, base, T, win=None, unit='h', freq='h', level='A', wrap_win='same', norm=2.0):
+def run_scaled(rec, seed, mode, base, T, win=None, unit='h', freq='h', level='A', wrap_win='same', norm=2.0, wacc=False):
     eao = lift.import_eao()
     sigma = Sym.var('sigma') if mode == 'free' else None
 
     def build(D):
-        pf_s, pf_b, tg, prices, fixc, rng = build_scaled(D, mode, base, T, win, unit, freq, sigma, wrap_win, norm)
+        pf_s, pf_b, tg, prices, fixc, rng = build_scaled(D, mode, base, T, win, unit, freq, sigma, wrap_win, norm, wacc)
         if mode == 'free':
             D.assume(sigma >= rng[0]); D.assume(sigma <= rng[1])
         ops = pf_s.setup_optim_problem(prices, tg)
@@ -349,6 +361,9 @@ def observe(case, kwargs, env, rq):
     kw = dict(kwargs)
     mode = kw.pop('mode')
     kw.pop('level', None)
+    if mode == 'costs':
+        from . import c17
+        return c17.observe(case, dict(kind='costs', shape=kw['shape'], kw=kw['kw']), env, rq)
     if mode == 'struct':
         sh, flat = build_struct(D, **kw)
         ops = sh.portf.setup_optim_problem(sh.prices, sh.tg)
@@ -364,7 +379,7 @@ def observe(case, kwargs, env, rq):
                 o['disp_struct'] = obs.output_obs(eao.io.extract_output(sh.portf, ops, rs))['dispatch']
         return o
     sigma = float(env.get('sigma', 1.0)) if mode == 'free' else None
-    pf_s, pf_b, tg, prices, fixc, rng = build_scaled(D, mode, kw['base'], kw['T'], kw.get('win'), kw.get('unit', 'h'), kw.get('freq', 'h'), sigma, kw.get('wrap_win', 'same'), kw.get('norm', 2.0))
+    pf_s, pf_b, tg, prices, fixc, rng = build_scaled(D, mode, kw['base'], kw['T'], kw.get('win'), kw.get('unit', 'h'), kw.get('freq', 'h'), sigma, kw.get('wrap_win', 'same'), kw.get('norm', 2.0), kw.get('wacc', False))
     ops = pf_s.setup_optim_problem(prices, tg)
     opb = pf_b.setup_optim_problem(prices, tg)
     o = dict(scaled=obs.problem_obs(ops), base=obs.problem_obs(opb))
@@ -389,6 +404,9 @@ def judge(case, kwargs, cand, ans):
         return (True, 'raises on an in-domain input: ' + ans['error'][:200]) if 'error' in ans else (False, 'no exception')
     if 'error' in ans:
         return None, ans['error']
+    if kwargs.get('mode') == 'costs':
+        from . import c17
+        return c17.judge(case, dict(kind='costs', shape=kwargs['shape'], kw=kwargs['kw']), cand, ans)
     o = ans['obs']
     if info.get('kind') in ('keys', 'scale_var'):
         return True, 'variables cannot be matched by meaning: %s' % info.get('missing')
